@@ -97,3 +97,20 @@ Fixpoint all_some {A} (l : list (option A)) : option (list A) :=
   end.
 
 Definition group_qops (g : gen_group) : option (list qop) := all_some (map qop_of_list (gg_ops g)).
+
+(* exact rational value of a finite binary64 number *)
+Definition float_to_Q (x : float) : option Q :=
+  match Prim2SF x with
+  | S754_zero _ => Some 0
+  | S754_finite s m e =>
+      let mz := if s then Zneg m else Zpos m in
+      Some (Qred (match e with
+                  | Z0 => inject_Z mz
+                  | Zpos p => inject_Z (mz * Z.pow_pos 2 p)
+                  | Zneg p => Qmake mz (Pos.pow 2 p)
+                  end))
+  | _ => None
+  end.
+
+Definition float_is_Q (x : float) (q : Q) : bool :=
+  match float_to_Q x with Some v => Qeq_bool v q | None => false end.
